@@ -35,6 +35,7 @@ COMPILER_REPLAYS = {
     "u_goident": ["replay/c19/predeclared.sh"],
     "u_reserved": ["replay/c19/builtin_name.sh"],
     "u_gensym": ["replay/c19/gensym_capture.sh"],
+    "u_varname": ["replay/c19/shared_variant.sh"],
     "u_patlit": ["replay/c03/run.sh"],
     "u_annot": ["replay/c03/annotations.sh"],
     "u_binop": ["replay/c09/short_circuit.sh"],
